@@ -44,7 +44,9 @@ fn g16(v: u16) -> GlyphId16 {
 enum Dev {
     #[default]
     None,
-    Device { start: u16, end: u16, fmt: u16, words: Vec<u16> },
+    /// a Device table by its DECODED deltas (read side: read-fonts `Device::iter`; rule / write side: the
+    /// deltas the generator passed to `Device::new`, see `new_device`)
+    Device { start: u16, end: u16, deltas: Vec<i8> },
     VarIdx(u16, u16),
     /// a variation-index table resolved through the item variation store: the deltas at the three
     /// probe locations (axis0=+1), (axis0=-1), (axis1=+1)  (= the input deltas of regions R0, R1, R2)
@@ -56,9 +58,9 @@ impl Dev {
     fn show(&self) -> String {
         match self {
             Dev::None => "-".into(),
-            Dev::Device { start, end, fmt, words } => {
-                let w: Vec<String> = words.iter().map(|w| format!("{w:04x}")).collect();
-                format!("D({start}-{end} f{fmt} {})", w.join("."))
+            Dev::Device { start, end, deltas } => {
+                let w: Vec<String> = deltas.iter().map(|w| w.to_string()).collect();
+                format!("D({start}-{end} [{}])", w.join(","))
             }
             Dev::VarIdx(o, i) => format!("V({o},{i})"),
             Dev::Deltas(d) => format!("Δ({},{},{})", d[0], d[1], d[2]),
@@ -135,12 +137,7 @@ fn dev_r(d: Option<Result<rl::DeviceOrVariationIndex<'_>, ReadError>>) -> Dev {
     match d {
         None => Dev::None,
         Some(Err(e)) => Dev::Bad(format!("{e:?}")),
-        Some(Ok(rl::DeviceOrVariationIndex::Device(d))) => Dev::Device {
-            start: d.start_size(),
-            end: d.end_size(),
-            fmt: d.delta_format() as u16,
-            words: d.delta_value().iter().map(|w| w.get()).collect(),
-        },
+        Some(Ok(rl::DeviceOrVariationIndex::Device(d))) => Dev::Device { start: d.start_size(), end: d.end_size(), deltas: d.iter().collect() },
         Some(Ok(rl::DeviceOrVariationIndex::VariationIndex(v))) => {
             Dev::VarIdx(v.delta_set_outer_index(), v.delta_set_inner_index())
         }
@@ -174,8 +171,56 @@ fn anc_r(a: &rg::AnchorTable) -> Anc {
 
 // ---- write-fonts (unsplit) side ----
 
+thread_local! {
+    /// (start, end, format, words) of every Device the generators made → the deltas they asked for
+    /// (`None`: two different delta lists got the same encoding — only possible if the writer is wrong)
+    static INTENDED: std::cell::RefCell<BTreeMap<(u16, u16, u16, Vec<u16>), Option<Vec<i8>>>> = const { std::cell::RefCell::new(BTreeMap::new()) };
+}
+
+/// `Device::new` for the generators: remembers which deltas the table is SUPPOSED to hold
+fn new_device(start: u16, vals: &[i8]) -> wl::Device {
+    let d = wl::Device::new(start, start + vals.len() as u16 - 1, vals);
+    let key = (d.start_size, d.end_size, d.delta_format as u16, d.delta_value.clone());
+    INTENDED.with(|m| {
+        let mut m = m.borrow_mut();
+        match m.get(&key) {
+            Some(Some(old)) if old.as_slice() != vals => {
+                m.insert(key, None);
+            }
+            Some(_) => {}
+            None => {
+                m.insert(key, Some(vals.to_vec()));
+            }
+        }
+    });
+    d
+}
+
+/// the rule-side / write-side meaning of a Device table: the deltas it was built from
 fn device_w(d: &wl::Device) -> Dev {
-    Dev::Device { start: d.start_size, end: d.end_size, fmt: d.delta_format as u16, words: d.delta_value.clone() }
+    let key = (d.start_size, d.end_size, d.delta_format as u16, d.delta_value.clone());
+    match INTENDED.with(|m| m.borrow().get(&key).cloned()) {
+        Some(Some(deltas)) => Dev::Device { start: d.start_size, end: d.end_size, deltas },
+        Some(None) => Dev::Bad("two different delta lists were written with the same encoding".into()),
+        None => Dev::Bad("device table not made by new_device".into()),
+    }
+}
+
+const SMALL: [i8; 4] = [-2, -1, 0, 1];
+/// deltas at the format boundaries, hit from both sides: class 0 = 2-bit only, 1 = just above 2-bit
+/// (2 / -3), 2 = top of 4-bit (-8 / 7), 3 = just above 4-bit (8 / -9, everything else within
+/// -8..=7), 4 = i8 extremes, 5 = anything; `first` picks which of the two boundary values leads,
+/// `pick(k)` selects entry `k` from the class' pool
+fn boundary_deltas(class: u64, n: usize, first: u64, mut pick: impl FnMut(usize, usize) -> usize) -> Vec<i8> {
+    let (lead, pool): (&[i8], &[i8]) = match class {
+        0 => (&SMALL, &SMALL),
+        1 => (&[2, -3], &[-2, -1, 0, 1, 2, -3]),
+        2 => (&[-8, 7], &[-8, 7, -2, 1, 0, 3]),
+        3 => (&[8, -9], &[-8, 7, 0, 1, -2, 5]),
+        4 => (&[-128, 127], &[-128, 127, 8, -9, 0, 1]),
+        _ => (&[0, 8, -9, 2], &[-2, -1, 0, 1, 2, -3, -8, 7, 8, -9, -128, 127]),
+    };
+    (0..n).map(|k| if k == 0 { lead[(first as usize) % lead.len()] } else { pool[pick(k, pool.len())] }).collect()
 }
 
 fn dev_w(d: Option<&wl::DeviceOrVariationIndex>) -> Dev {
@@ -304,23 +349,17 @@ impl IvsCtx {
 
 /// a Device table whose contents are an injective function of `id` (< 2^24); three delta formats
 fn device_of(id: u32) -> wl::Device {
-    match id % 3 {
-        0 => {
-            // 2-bit deltas, 12 sizes
-            let v: Vec<i8> = (0..12).map(|k| ((id >> (2 * k)) & 3) as i8 - 2).collect();
-            wl::Device::new(8, 19, &v)
-        }
-        1 => {
-            // 4-bit deltas, 7 sizes
-            let v: Vec<i8> = (0..7).map(|k| if k == 0 { -8 } else { ((id >> (4 * (k - 1))) & 15) as i8 - 8 }).collect();
-            wl::Device::new(10, 16, &v)
-        }
-        _ => {
-            // 8-bit deltas, 4 sizes
-            let v = [100i8, (id & 0xff) as u8 as i8, ((id >> 8) & 0xff) as u8 as i8, ((id >> 16) & 0xff) as u8 as i8];
-            wl::Device::new(11, 14, &v)
-        }
-    }
+    // 1..=17 entries (word boundaries of all three packings), boundary class and entries from `id`
+    let n = 1 + (id % 17) as usize;
+    let class = (id / 17) % 6;
+    let rest = (id / 102) as u64;
+    let mut digits = rest / 2;
+    let vals = boundary_deltas(class as u64, n, rest, |_, m| {
+        let d = (digits % m as u64) as usize;
+        digits /= m as u64;
+        d
+    });
+    new_device(8 + (digits % 200) as u16, &vals)
 }
 
 /// a delta set that is an injective function of `id`; R0 always present (never all zero)
@@ -897,16 +936,10 @@ fn vs_size(v: VS) -> usize {
 
 fn mk_dev(rng: &mut Rng) -> wl::Device {
     let start = rng.range(6, 14) as u16;
-    let n = rng.range(1, 6) as usize;
-    let width = rng.below(3);
-    let vals: Vec<i8> = (0..n)
-        .map(|_| match width {
-            0 => rng.range(-2, 1) as i8,
-            1 => rng.range(-8, 7) as i8,
-            _ => rng.range(-128, 127) as i8,
-        })
-        .collect();
-    wl::Device::new(start, start + n as u16 - 1, &vals)
+    let n = rng.range(1, 17) as usize;
+    let (class, first) = (rng.below(6), rng.below(4));
+    let vals = boundary_deltas(class, n, first, |_, m| rng.below(m as u64) as usize);
+    new_device(start, &vals)
 }
 
 fn mk_vrb(style: VS, v: i16, dev: Option<&wl::Device>) -> ValueRecordBuilder {
